@@ -248,6 +248,7 @@ fn run_history(ops: &[Op], ctx: &mut Ctx) -> Result<(), Violation> {
     let mut last_writer: [u8; 256] = [0; 256];
     for (i, op) in ops.iter().enumerate() {
         let nv_before = no_value_reads(&m);
+        let f9_op_before = m.bus().read(0xF9);
         let board_before = rf.board.clone();
         match op {
             Op::S(s) => {
@@ -333,6 +334,14 @@ fn run_history(ops: &[Op], ctx: &mut Ctx) -> Result<(), Violation> {
         }));
         if let Some(d) = map_diff(&m, &rf) {
             return Err(v("address-map", i, format!("after {:?}: {}", op, d)));
+        }
+        // the interrupt status changes through interrupt events, never through a bus write (to the
+        // mask at the same address, to the timer or UART registers, or anywhere else)
+        if matches!(op, Op::S(Stim::BusWrite(..))) {
+            let now = m.bus().read(0xF9);
+            if now != f9_op_before {
+                return Err(v("address-map", i, format!("{:?} changed what read(0xF9) (interrupt status) returns: 0x{:02X} -> 0x{:02X}", op, f9_op_before, now)));
+            }
         }
         // "a read of 0xF9 returns the interrupt status": a key interrupt that is latched and waiting
         // to be taken must show as pending there (bit 4), whatever else the register holds
@@ -441,7 +450,12 @@ impl Check for C10 {
         let n = 4 + rng.usize(60);
         let ops = (0..n)
             .map(|_| match rng.below(16) {
-                0..=3 => Op::S(Stim::BusWrite(any_addr(rng), rng.u8())),
+                0..=3 => {
+                    let a = any_addr(rng);
+                    // timer / UART / mask registers: half of the values from the corners of their bit fields
+                    let val = if a >= 0xF9 && rng.bool() { *rng.pick(&[0u8, 1, 2, 3, 0x10, 0x80, 0x90, 0xB0, 0xD0, 0xF0, 0xFF, 0x7F]) } else { rng.u8() };
+                    Op::S(Stim::BusWrite(a, val))
+                }
                 4..=6 => Op::S(Stim::BusRead(any_addr(rng))),
                 7..=9 => Op::CpuWrite(any_addr(rng), rng.u8(), rng.below(4) as u8),
                 10 => Op::CpuRead(any_addr(rng), rng.below(4) as u8),
